@@ -76,6 +76,11 @@ CHECKS = {
             'Translation validation of one translation against the other: 29 annotation-sensitive construct cells, the 1300-cell construct x context sweep, seeded random programs, all 277 repository samples and mutated samples. Same verdict required; erase(ast(on)) == erase(ast(off)) where erasure turns annotated assignments into assignments, drops bare annotations, clears parameter/return annotations and reduces typing imports to the names still used; executed behaviour (printed lines, exception class) of both outputs must be equal.',
             'CPython ast as the notion of "same program"; an irreproducible baseline is left to C12.',
             'DESIGN.md section 4, C11'),
+    'C16': ('exploration',
+            'runtime monitor on emitted modules: symtable/ast analysis of the exact returned text (free global names, duplicate generator imports, import placement, user imports reproduced) plus execution (NameError/ImportError at import time)',
+            'Every import-needing construct (sqrt; T? in variable, parameter, return, field, nested generic; unions via if/match/declared incl. all-nullable ones; tuple types; function-typed parameters; Any; type alias; abstract types) alone x every user-import form (plain, aliased, from, from-as, multiple), pairs in both orders and random combinations of 2-5 constructs, generated programs, the construct sweep and all valid repository samples, with annotate on and off.',
+            'Support names: math; Optional/Union/Tuple/Callable/Any/NewType from typing; ABC/abstractmethod from abc. Names bound by the user\'s own imports are allowed free names.',
+            'DESIGN.md section 4, C16'),
 }
 
 NOT_YET = 'monitor not built yet in this revision (construction order: DESIGN.md section 9); not claimed rather than claimed weakly'
